@@ -172,8 +172,8 @@ func textUnder(fv *fileView, d scen.Diag) (string, bool) {
 // expectedCodes maps an unambiguous single perturbation to the code (and severity 1=error) the violated rule documents.
 func expectedCode(pertName string) string {
 	switch {
-	case pertName == "verb->FOO":
-		return "annotation-value-invalid"
+	case pertName == "verb->FOO" || pertName == "verb->get" || pertName == "verb->Options":
+		return "annotation-value-invalid" // verbs are upper-case words: anything else is an invalid value, not an unsupported verb
 	case pertName == "verb->HEAD" || pertName == "verb->OPTIONS":
 		return "unsupported-feature"
 	case pertName == "param.add-unbound":
